@@ -110,6 +110,29 @@ def run(ctx):
         allstrings.append(s)
         st, n = norm(s)
         if st != 'ValueError': fail(s, 'ValueError (not an event code)', n if st == 'ok' else st, 'non-code not refused with ValueError')
+    # ---- the first call of a process: each spelling normalised as the very first call of a fresh interpreter must get the
+    # answer it gets here, after thousands of calls (tables built on first use, state carried between calls)
+    import subprocess, sys as _sys, json as _json
+    FIRST = ['JT800g', '400H 84.0cm 8.50m', 'DT1.50Kg', 'SP 7.260 kg', 'OT150g', 'WT15.880K', '100H 84.0cm', '4x100', 'dt1.5k', '60H', 'HT7.260KG', ' 5k ', '3000sc', 'BT1.0K', '2000SC76.2cm']
+    code_ = ('import sys, json; sys.path.insert(0, %r); import athlib\n'
+             'def n(s):\n'
+             '    try: return ["ok", athlib.normalize_event_code(s)]\n'
+             '    except ValueError: return ["ValueError", None]\n'
+             '    except Exception as e: return [type(e).__name__, None]\n'
+             's = json.loads(sys.stdin.read())\n'
+             'print(json.dumps([n(s), n(s)]))\n') % (vlib.REPO,)
+    procs = [(s_, subprocess.Popen([_sys.executable, '-c', code_], stdin=subprocess.PIPE, stdout=subprocess.PIPE, stderr=subprocess.PIPE, text=True)) for s_ in FIRST]
+    for s_, pr in procs:
+        out_, err_ = pr.communicate(_json.dumps(s_), timeout=300)
+        try: first_, second_ = _json.loads(out_.strip().split('\n')[-1])
+        except Exception:
+            ctx.oblig('fresh-interpreter first call of normalize_event_code', 'correspondence', False, (err_ or out_)[-300:]); continue
+        here = list(norm(s_))
+        ctx.count(3, 'first_call_answers')
+        if tuple(first_) != tuple(here) or tuple(second_) != tuple(here):
+            ctx.fail('athlib.normalize_event_code', [s_], 'the same answer as the first call of a fresh interpreter, as its second call and after many calls', 'first call in a fresh interpreter: %r; second call there: %r; in this process: %r' % (first_, second_, here),
+                     note='the answer depends on what was called before (first call of the process)',
+                     replay_py='import subprocess, sys\nresult = subprocess.run([sys.executable, "-c", "import sys; sys.path.insert(0, %%r); import athlib; print(athlib.normalize_event_code(%%r), athlib.normalize_event_code(%%r))" %% (sys.path[0], %r, %r)], capture_output=True, text=True).stdout' % (s_, s_))
     ctx.stats['codes'] = len(base); ctx.stats['variants_checked'] = nvar; ctx.stats['near_misses'] = len(misses)
     ctx.count(len(allstrings), 'property_oracle_strings')
     # ---- matcher validation + correspondence with the model
